@@ -63,6 +63,10 @@ def healthy(ctx, n, nsteps):
                 ctx.oracle_fail("validate/headless-band-unreported", f"after a backup killed at operation {c['steps'][9]['plan']['crash']} validate "
                                 f"{'crashed' if v.get('panic') else 'did not report the band directory without a head'}", {"steps": c["steps"]})
                 continue
+            if not headless and (v.get("monitor_errors") or v.get("result") != "ok"):
+                ctx.oracle_fail("validate/false-alarm", f"after a backup killed at operation {c['steps'][9]['plan']['crash']} (its band has its head) validate "
+                                f"reported {json.dumps(v.get('monitor_errors') or v.get('err'))[:200]} on an archive no file of which is damaged", {"steps": c["steps"]})
+                continue
             ctx.dist("killed_early_headless" if headless else "killed_early_with_head")
         else:
             h.expect_healthy = True     # kills only from operation 9 on: after the band head is written
